@@ -33,7 +33,8 @@ MANIFEST = {
 }
 ASSUMPTIONS = ["bounded universe in the history enumeration: 5 packages, 3 blockers, 2 choice points, histories of <= 4 operations",
                "states are compared as multisets (a reverted remove re-appends at the end of a slot list)",
-               "PigeonHoledSlots, RefCountingSet and dict behave as the ghost state of C17.operations says (their code is not under contract here; for PigeonHoledSlots the assumed table is compared with the real class on every sequence of <= 4 calls, bounded)",
+               "RefCountingSet and dict behave as the ghost state of C17.operations says (their code is not under contract here)",
+               "PigeonHoledSlots behaves as the ghost slot table of C17.operations says: proved for remove_slotting, remove_limiter and check_limiters (own contracts, all list lengths, entries as sets -- order and multiplicity of what stays not covered); fill_slotting, add_limiter, get_conflicting_slot and find_atom_matches stay assumed, compared with the real class on every sequence of <= 4 calls (bounded)",
                "the induction over the plan (each revert meets the state its apply left, because newer operations are reverted first) is argued, not machine-checked"]
 
 
@@ -714,6 +715,107 @@ def t_remove_slotting(ex):
             ex.oblige(f"{P}.ensures.no_empty_list_is_left_in_the_table", left.length() >= 1)
 
 
+def t_remove_limiter(ex):
+    """PigeonHoledSlots.remove_limiter(atom[, key]) -- how a reverted blocker leaves the table -- drops from the limiter list of the key (the
+    atom's own key when none is given) exactly the entries that ARE the atom, raises KeyError exactly when none is (or the key has no list),
+    deletes the key when nothing is left and touches no other key; for limiter lists of any length (entries as a set)."""
+    from pkgcore.resolver.pigeonholes import PigeonHoledSlots
+    from pyvc.sym import Kind, KSeq, SSeq
+    P = "C17.PigeonHoledSlots.remove_limiter"
+    sort = z3.DeclareSort("Limiter")
+    eqcls = theory.ufun("limiter_eq_class", sort, _EQ)
+
+    class LimRef(SRef):
+        """a blocker restriction: == may hold between distinct objects (two equal atoms), identity is the reference"""
+        def __eq__(self, o):
+            return SBool(eqcls(self.t) == eqcls(o.t)) if isinstance(o, LimRef) else False
+
+        def __ne__(self, o):
+            r = self.__eq__(o)
+            return True if r is False else Not(r)
+        __hash__ = None
+    K = Kind("Limiter", sort, lambda t: LimRef(t, K), lambda v: v.t if isinstance(v, LimRef) else None)
+    atom_ = K.fresh("atom")
+    lims = KSeq(K, "list").fresh("limiters")
+    key_present, key_given = bool(ex.choose(2)), bool(ex.choose(2))
+    other = ("an", "other", "key's", "limiters")
+    the_key = "cat/given" if key_given else "cat/foo"
+    table = {"cat/other": other}
+    if key_present:
+        ex.assume(lims.length() >= 1)
+        table[the_key] = lims
+    me = SObj(PigeonHoledSlots, {"slot_dict": {}, "limiters": table})
+    it = Interp(ex, label=P)
+    it.ref_attrs = {("Limiter", "key"): lambda it_, o: "cat/foo"}
+    args = (me, atom_) + (("cat/given",) if key_given else ())
+    out = call(it, it.target("src/pkgcore/resolver/pigeonholes.py", "PigeonHoledSlots.remove_limiter"), *args)
+    y = z3.Const("y!c17rl", sort)
+    before = lims.as_set().t if key_present else z3.EmptySet(sort)
+    is_there = z3.IsMember(atom_.t, before)
+    ex.oblige(f"{P}.frame.other_keys_untouched", table.get("cat/other") is other and set(table) <= {"cat/other", the_key})
+    if out.raised:
+        ex.cover("raises")
+        ex.oblige(f"{P}.raises.KeyError_only", out.exc.cls is KeyError, kind="exceptional-postcondition")
+        ex.oblige(f"{P}.raises.only_when_no_entry_is_the_atom", Not(SBool(is_there)), kind="exceptional-postcondition")
+        ex.oblige(f"{P}.raises.leaves_the_table_as_it_was", table.get(the_key) is (lims if key_present else None), kind="exceptional-postcondition")
+        return
+    ex.cover("returns")
+    ex.oblige(f"{P}.ensures.returns_only_when_an_entry_is_the_atom", SBool(is_there))
+    left = table.get(the_key)
+    if left is None:
+        ex.cover("key deleted")
+        ex.oblige(f"{P}.ensures.key_deleted_only_when_every_entry_was_the_atom", SBool(z3.ForAll([y], z3.Implies(z3.IsMember(y, before), y == atom_.t))))
+    else:
+        ex.cover("entries left")
+        ok = isinstance(left, SSeq)
+        ex.oblige(f"{P}.ensures.the_key_keeps_a_list", ok)
+        if ok:
+            ex.oblige(f"{P}.ensures.exactly_the_entries_that_are_the_atom_are_dropped_equal_ones_stay",
+                      SBool(z3.ForAll([y], z3.IsMember(y, left.as_set().t) == z3.And(z3.IsMember(y, before), y != atom_.t))))
+            ex.oblige(f"{P}.ensures.no_empty_list_is_left_in_the_table", left.length() >= 1)
+
+
+def t_check_limiters(ex):
+    """PigeonHoledSlots.check_limiters(obj) -- the question every add, replace and revert asks -- answers with exactly the active limiters of
+    obj's key that match obj (none when the key has no limiters) and changes nothing; for limiter lists of any length (entries as a set)."""
+    from pkgcore.resolver.pigeonholes import PigeonHoledSlots
+    from pyvc.sym import Kind, KSeq, SSeq
+    P = "C17.PigeonHoledSlots.check_limiters"
+    lsort, psort = z3.DeclareSort("Limiter2"), z3.DeclareSort("CheckedPkg")
+    matches = theory.ufun("limiter_matches", lsort, psort, z3.BoolSort())
+    KL = Kind("Limiter2", lsort, lambda t: SRef(t, KL), lambda v: v.t if isinstance(v, SRef) and v.kind is KL else None)
+    KP = Kind("CheckedPkg", psort, lambda t: SRef(t, KP), lambda v: v.t if isinstance(v, SRef) and v.kind is KP else None)
+    obj = KP.fresh("obj")
+    lims = KSeq(KL, "list").fresh("limiters")
+    key_present = bool(ex.choose(2))
+    other = ("an", "other", "key's", "limiters")
+    table = {"cat/other": other}
+    if key_present:
+        table["cat/foo"] = lims
+    slot_table = {"cat/foo": ("slots",)}
+    me = SObj(PigeonHoledSlots, {"slot_dict": slot_table, "limiters": table})
+    it = Interp(ex, label=P)
+    it.ref_attrs = {("CheckedPkg", "key"): lambda it_, o: "cat/foo",
+                    ("Limiter2", "match"): lambda it_, o: Model(lambda it__, p: SBool(matches(o.t, p.t)), "restriction.match", pure=True)}
+    out = call(it, it.target("src/pkgcore/resolver/pigeonholes.py", "PigeonHoledSlots.check_limiters"), me, obj)
+    ex.oblige(f"{P}.raises.nothing", not out.raised, kind="exceptional-postcondition")
+    if out.raised:
+        return
+    ex.cover("returns")
+    ex.oblige(f"{P}.frame.tables_untouched", table == ({"cat/other": other, "cat/foo": lims} if key_present else {"cat/other": other}) and table.get("cat/foo") is (lims if key_present else None)
+              and slot_table == {"cat/foo": ("slots",)})
+    r = out.value
+    y = z3.Const("y!c17cl", lsort)
+    if key_present:
+        ok = isinstance(r, SSeq)
+        ex.oblige(f"{P}.ensures.a_list_of_limiters", ok)
+        if ok:
+            ex.oblige(f"{P}.ensures.exactly_the_limiters_of_the_key_that_match_the_object",
+                      SBool(z3.ForAll([y], z3.IsMember(y, r.as_set().t) == z3.And(z3.IsMember(y, lims.as_set().t), matches(y, obj.t)))))
+    else:
+        ex.oblige(f"{P}.ensures.no_limiters_no_conflicts", (isinstance(r, (list, tuple)) and len(r) == 0) or (isinstance(r, SSeq) and ex.must(r.length() == 0)))
+
+
 def tasks():
     fns = [(FILE, n) for n in ("plan_state.backtrack", "add_op.apply", "add_op.revert", "remove_op.apply", "remove_op.revert",
                                "replace_op.apply", "replace_op.revert", "incref_forward_block_op.apply", "incref_forward_block_op.revert",
@@ -722,6 +824,8 @@ def tasks():
             Task("C17.PigeonHoledSlots", None, [("src/pkgcore/resolver/pigeonholes.py", "PigeonHoledSlots." + n) for n in ("fill_slotting", "remove_slotting", "add_limiter", "remove_limiter", "check_limiters", "find_atom_matches")],
                  enumerate=enum_slot_table),
             Task("C17.remove_slotting", t_remove_slotting, [("src/pkgcore/resolver/pigeonholes.py", "PigeonHoledSlots.remove_slotting")]),
+            Task("C17.remove_limiter", t_remove_limiter, [("src/pkgcore/resolver/pigeonholes.py", "PigeonHoledSlots.remove_limiter")]),
+            Task("C17.check_limiters", t_check_limiters, [("src/pkgcore/resolver/pigeonholes.py", "PigeonHoledSlots.check_limiters")]),
             Task("C17.operations", t_ops, fns[1:]),
             Task("C17.backtrack", t_backtrack, fns[:1], bounded={"operations in the plan": 4, "note": "every position, every failing revert"})]
 
